@@ -35,6 +35,7 @@ CE="extendedKeyUsage=clientAuth,serverAuth\n"
 leaf client_operator ca1 "${CE}${ROLE_OID}=ASN1:UTF8String:operator\n"
 leaf client_viewer ca1 "${CE}${ROLE_OID}=ASN1:UTF8String:viewer\n"
 leaf client_norole ca1 "${CE}"
+leaf client_mixedcase ca1 "${CE}${ROLE_OID}=ASN1:UTF8String:OpeRator\n"   # the role is taken as it is written
 leaf client_ca2_operator ca2 "${CE}${ROLE_OID}=ASN1:UTF8String:operator\n"
 leaf client_expired ca1 "${CE}${ROLE_OID}=ASN1:UTF8String:operator\n" 20200101000000Z 20210101000000Z
 leaf client_notyet ca1 "${CE}${ROLE_OID}=ASN1:UTF8String:operator\n" 20900101000000Z 20990101000000Z
